@@ -106,6 +106,13 @@ BUILT: dict[str, dict[str, str]] = {
         note="Storage-level study-attribute dictionaries of the in-memory/journal storages are out of scope (the statement names dictionaries obtained from a study); thread interleavings inside a call are C03's subject.",
         ref="DESIGN.md 3/C20",
     ),
+    "C08": dict(
+        technique="differential property testing (Hypothesis): generated interleaved histories of five clients (two cached, one raw, two gRPC proxies over raw / cached server storages) on one SQLite database; every read through a cache is compared at once with a raw view of the same database",
+        category="exploration",
+        text="Generated-history differential across clients: writes by any client (incl. finished templates, out-of-order finishes, several studies in one id space, deletes) followed by reads through generated clients, each compared with a fresh raw RDBStorage answer. The recorded finding (a study deleted by another client stays cached) is carved out only for (client, id) pairs that had read the id before the foreign delete.",
+        note="SQLite for the RDB backend; thread interleavings inside a cached client are part of C03.",
+        ref="DESIGN.md 3/C08",
+    ),
 }
 
 NOT_YET: dict[str, str] = {}
